@@ -1,1 +1,2 @@
-import Depccg.Search
+import Depccg.Props.SearchBasics
+import Depccg.Props.SearchOptimal
